@@ -137,6 +137,10 @@ type Chain struct {
 	// the events the end blocker emitted, per height: what an off-chain client reads back from a node
 	EndEvents map[int64][]abci.Event
 
+	// a transaction of several messages in progress: the messages run on one branch of the block state,
+	// which is kept only if all of them succeed; they share the transaction hash and are numbered
+	tx *txState
+
 	// sub-step observer for EndBlocker (set by the driver)
 	OnSub func(stage string, id int)
 
@@ -331,6 +335,59 @@ func (c *Chain) nextTxHash() []byte {
 	return h[:]
 }
 
+type txState struct {
+	base   sdk.Context
+	write  func()
+	failed bool
+	hash   []byte
+	idx    int64
+	// the harness's own bookkeeping at the start of the transaction
+	nctx      int
+	ctxIDs    map[string]int
+	ctxBytes  map[int][]byte
+	react     map[int]Reaction
+	reactCons map[int]string
+}
+
+// BeginTx opens a transaction: until EndTx, messages are delivered to a branch of the block state
+func (c *Chain) BeginTx() {
+	if c.tx != nil || c.Phase != "deliver" {
+		return
+	}
+	t := &txState{base: c.Ctx, hash: c.nextTxHash(), nctx: c.NCtx, ctxIDs: map[string]int{}, ctxBytes: map[int][]byte{},
+		react: map[int]Reaction{}, reactCons: map[int]string{}}
+	for k, v := range c.CtxIDs {
+		t.ctxIDs[k] = v
+	}
+	for k, v := range c.CtxBytes {
+		t.ctxBytes[k] = v
+	}
+	for k, v := range c.React {
+		t.react[k] = v
+	}
+	for k, v := range c.ReactCons {
+		t.reactCons[k] = v
+	}
+	var branch sdk.Context
+	branch, t.write = c.Ctx.CacheContext()
+	c.Ctx = branch
+	c.tx = t
+}
+
+// EndTx closes the transaction: its effects are kept if every message succeeded, discarded otherwise
+// (the store's, by dropping the branch; the harness's own bookkeeping, from the snapshot)
+func (c *Chain) EndTx() (committed bool) {
+	t := c.tx
+	c.tx = nil
+	c.Ctx = t.base
+	if t.failed {
+		c.NCtx, c.CtxIDs, c.CtxBytes, c.React, c.ReactCons = t.nctx, t.ctxIDs, t.ctxBytes, t.react, t.reactCons
+		return false
+	}
+	t.write()
+	return true
+}
+
 type Outcome struct {
 	OK    bool
 	Panic bool
@@ -342,8 +399,13 @@ type Outcome struct {
 func (c *Chain) run(f func(ctx sdk.Context) error) (out Outcome) {
 	activeChain = c
 	cacheCtx, write := c.Ctx.CacheContext()
-	c.LastTxHash = c.nextTxHash()
-	c.LastMsgIndex = int64(c.TxSeq % 3) // not always the first message of its transaction
+	if c.tx != nil {
+		c.LastTxHash, c.LastMsgIndex = c.tx.hash, c.tx.idx
+		c.tx.idx++
+	} else {
+		c.LastTxHash = c.nextTxHash()
+		c.LastMsgIndex = int64(c.TxSeq % 3) // not always the first message of its transaction
+	}
 	cacheCtx = cacheCtx.WithContext(context.WithValue(
 		context.WithValue(cacheCtx.Context(), types.TxHash, c.LastTxHash), types.MsgIndex, c.LastMsgIndex))
 	saved := len(c.cbs)
